@@ -233,6 +233,13 @@ impl Report {
     /// Vacuity guard: the exploration did not reach what it was built to reach → exit 2.
     pub fn guard(&self, cond: bool, msg: &str) {
         if !cond {
+            // on a tree that already violates the property the exploration may well not reach
+            // what it was built to reach (programs that no longer build, outcomes that no longer
+            // differ): the violations are the verdict then, the guard only a note
+            if self.violation_keys() > 0 {
+                println!("NOTE: vacuity guard not met for {} ({}) - violations were found, they are reported", self.prop, msg);
+                return;
+            }
             machinery_fail(&format!("vacuity guard failed for {}: {}", self.prop, msg));
         }
     }
